@@ -301,7 +301,7 @@ fn pool_texts(entry: &str, frames: &[Vec<u8>]) -> Result<Vec<String>, String> {
         }
         "ph" => {
             let (tx, rx) = mpsc::channel();
-            let pool = huginn_net_http::WorkerPool::new(2, 4096, 1, 1, tx, Some(db().clone()), 1000, Some(pass_all_filter!(huginn_net_http))).map_err(|e| e.to_string())?;
+            let pool = huginn_net_http::WorkerPool::new(1, 4096, 1, 1, tx, Some(db().clone()), 1000, Some(pass_all_filter!(huginn_net_http))).map_err(|e| e.to_string())?;
             for (i, f) in frames.iter().enumerate() { if let huginn_net_http::DispatchResult::Dropped = pool.dispatch(f.clone()) { pool.shutdown(); return Err(format!("dispatch {} refused", i)); } }
             let r = collect(&rx, &|| pool.stats().workers.iter().all(|w| w.queue_size == 0), &|x| http_text(x));
             let alive = !matches!(pool.dispatch(vec![0u8; 4]), huginn_net_http::DispatchResult::Dropped);
@@ -335,18 +335,32 @@ fn history(entry: &str, junk: &[Vec<u8>], probe: &[Vec<u8>]) -> String {
                 out.push_str(&format!("\t!poisoned: probe packet {} after the history reports {:?}, a fresh instance reports {:?}", i, got[i].chars().take(200).collect::<String>(), want[i].chars().take(200).collect::<String>()));
             }
         }
-        "hp" | "hr" => {
-            let req = entry == "hp";
-            let text = |p: &huginn_net_http::http_process::HttpProcessors, d: &[u8]| -> String {
-                if req { p.parse_request(d).map(|x| scrub(&format!("{:?}", x))).unwrap_or_default() } else { p.parse_response(d).map(|x| scrub(&format!("{:?}", x))).unwrap_or_default() }
+        // one parser-level instance, both directions: every junk item goes through the request AND the response entry
+        // (either may leave decoder state behind), every probe is evaluated by both and compared with a fresh instance.
+        //   p2 = Http2Parser::parse_request/parse_response, pc = Http2Processor::process_request/process_response,
+        //   hp = HttpProcessors::parse_request/parse_response (hr: kept as an alias)
+        "p2" | "pc" | "hp" | "hr" => {
+            use huginn_net_http::http_common::HttpProcessor;
+            fn res<T: std::fmt::Debug, E>(r: Result<Option<T>, E>) -> String { match r { Ok(Some(x)) => scrub(&format!("{:?}", x)), Ok(None) => "none".into(), Err(_) => "err".into() } }
+            fn opt<T: std::fmt::Debug>(r: Option<T>) -> String { match r { Some(x) => scrub(&format!("{:?}", x)), None => "none".into() } }
+            let run = |junk: &[Vec<u8>], probe: &[Vec<u8>]| -> Vec<String> {
+                match entry {
+                    "p2" => { let p = huginn_net_http::Http2Parser::new(); let f = |d: &[u8]| format!("Q:{} S:{}", res(p.parse_request(d)), res(p.parse_response(d)));
+                              for j in junk { let _ = f(j); } probe.iter().map(|d| f(d)).collect() }
+                    "pc" => { let p = huginn_net_http::Http2Processor::new(); let f = |d: &[u8]| format!("Q:{} S:{}", res(p.process_request(d)), res(p.process_response(d)));
+                              for j in junk { let _ = f(j); } probe.iter().map(|d| f(d)).collect() }
+                    _ => { let p = huginn_net_http::http_process::HttpProcessors::new(); let f = |d: &[u8]| format!("Q:{} S:{}", opt(p.parse_request(d)), opt(p.parse_response(d)));
+                           for j in junk { let _ = f(j); } probe.iter().map(|d| f(d)).collect() }
+                }
             };
-            let a = huginn_net_http::http_process::HttpProcessors::new();
-            for j in junk { let _ = text(&a, j); }
-            let got: Vec<String> = probe.iter().map(|d| text(&a, d)).collect();
-            let b = huginn_net_http::http_process::HttpProcessors::new();
-            let want: Vec<String> = probe.iter().map(|d| text(&b, d)).collect();
-            if want.iter().all(|s| s.is_empty()) { out.push_str("\t!vacuous probe: a fresh instance reports nothing for it"); }
-            if got != want { out.push_str(&format!("\t!poisoned: after the history the probe parses to {:?}, on a fresh instance to {:?}", got.concat().chars().take(200).collect::<String>(), want.concat().chars().take(200).collect::<String>())); }
+            let got = run(junk, probe);
+            let want = run(&[], probe);
+            let reports = |s: &String| s.contains("Q:Http2Request") || s.contains("Q:Observable") || s.contains("S:Http2Response") || s.contains("S:Observable");
+            if !want.iter().any(reports) { out.push_str("\t!vacuous probe: a fresh instance reports nothing for it"); }
+            if got != want {
+                let i = (0..want.len()).find(|&i| got[i] != want[i]).unwrap_or(0);
+                out.push_str(&format!("\t!poisoned: after the history probe {} parses to {:?}, on a fresh instance to {:?}", i, got[i].chars().take(160).collect::<String>(), want[i].chars().take(160).collect::<String>()));
+            }
         }
         "pt" | "pl" | "ph" => {
             let all: Vec<Vec<u8>> = junk.iter().chain(probe.iter()).cloned().collect();
